@@ -179,7 +179,8 @@ def run(chk):
     half = lambda a_, b_: _levd(a_, b_) / 2 + abs(len(a_) - len(b_))  # noqa: E731
     for name, fn in ((("symdel", lambda: nn.symdel(bxs, max_edits=1, custom_distance=half, max_custom_distance=0.5)),
                       ("nearest_neighbor", lambda: nn.nearest_neighbor(bxs, max_edits=1, custom_distance=half, max_custom_distance=0.5)))
-                     if not chk.skip_large("the 47 011-sequence custom-distance collection") else ()):
+                     if not chk.skip_large("the 47 011-sequence custom-distance collection",
+                                           probe=lambda: nn.symdel(bxs[:3000], max_edits=1, custom_distance=half, max_custom_distance=0.5)) else ()):
         rr = core.call_real(lambda: [(int(a_), int(b_), float(d_)) for a_, b_, d_ in fn()])
         chk.case(nontrivial_key=("large-custom", name))
         chk.count("large-collection")
@@ -281,8 +282,11 @@ def run(chk):
                 "index": [int(x) for x in df.index], "tcrdist_kwargs": tk}
         tk_before = dict(tk)
         metas.append(meta)
-        reals.append(core.call_real(lambda: core.canon_trips([tuple(r) for r in np.asarray(
-            nn.nearest_neighbor_tcrdist(df, chain=chain, max_edits=k, edit_on_trimmed=trimmed, max_tcrdist=max_t, tcrdist_kwargs=tk)).tolist()])))
+        raw_ = core.call_real(lambda: np.asarray(nn.nearest_neighbor_tcrdist(df, chain=chain, max_edits=k, edit_on_trimmed=trimmed, max_tcrdist=max_t, tcrdist_kwargs=tk)))
+        if raw_[0] == "ok" and (raw_[1].ndim != 2 or raw_[1].shape[1] != 3):
+            chk.violation("C14|nearest_neighbor_tcrdist|shape", f"nearest_neighbor_tcrdist returns an array of shape {raw_[1].shape}: the result is a list of "
+                          "(position, position, distance) triples - three columns, also when it is empty", {"rows": rows, "chain": chain, "max_tcrdist": max_t})
+        reals.append(core.call_real(lambda: core.canon_trips([tuple(r) for r in raw_[1].tolist()])) if raw_[0] == "ok" else raw_)
         if tk != tk_before:
             chk.violation("C14|nearest_neighbor_tcrdist|mutates-kwargs", "nearest_neighbor_tcrdist modified the caller's tcrdist_kwargs", meta)
     ans = core.run_driver_parallel(ops, nproc=8)
